@@ -12,6 +12,8 @@ macro_rules! outln {
 mod core;
 mod fastref;
 mod findings;
+mod fuzzops;
+mod fuzzstage;
 mod gen;
 mod props;
 mod pt;
@@ -49,6 +51,15 @@ fn run(args: &[String]) -> i32 {
         }
         Some("--serve") => props::c16::serve(),
         Some("c16-stubs") => props::c16::list_stubs(),
+        Some("fuzz-table") => {
+            // tooling: size of the libFuzzer operation table per property
+            let mut per: std::collections::BTreeMap<&str, usize> = Default::default();
+            for e in fuzzops::table() {
+                *per.entry(e.prop).or_insert(0) += 1;
+            }
+            crate::outln!("{} entries: {:?}", fuzzops::table().len(), per);
+            0
+        }
         Some("c13-survey") => props::c13::survey(),
         Some("c14-survey") => props::c14::survey(),
         Some("c14-probe") => props::c14::probe(args[2].parse().unwrap(), args[3].parse().unwrap(), &args[4]),
@@ -78,8 +89,19 @@ fn run(args: &[String]) -> i32 {
             }
             let cfg = Cfg { prop: prop.0, tier, seed };
             let mut rep = Report::new(cfg);
+            if crate::core::cov_div() > 1 {
+                rep.inconclusive.push(format!("coverage-measurement mode (VCHECK_COV_DIV={}): work thinned, nothing decided", crate::core::cov_div()));
+            }
             rep.extra.insert("oracle_selftest".into(), serde_json::json!(st.summary));
-            (prop.1)(&mut rep);
+            let fuzz_only = std::env::var_os("VCHECK_FUZZ_ONLY").is_some(); // tooling (tools/fuzz_eval.sh): the fuzz stage alone
+            if fuzz_only {
+                rep.inconclusive.push("VCHECK_FUZZ_ONLY: generated sections skipped (tooling run, decides nothing)".into());
+            } else {
+                (prop.1)(&mut rep);
+            }
+            if tier == Tier::Thorough && std::env::var_os("VCHECK_NO_FUZZ").is_none() {
+                fuzzstage::run(&mut rep);
+            }
             rep.finish()
         }
         None => {
